@@ -24,13 +24,13 @@ E2NOTE = "llsym = own forking symbolic executor for the clang-14 -O0 + sroa,mem2
 CHECKS.update({
  "C01": dict(engine="llsym", cat="model_checking", design="4/C01",
    technique="symbolic execution of src/avl.c IR (llsym + z3): inductive step from every valid AVL shape up to a height bound with symbolic keys/victims, plus bounded histories from the empty tree",
-   text="Every insert/remove/search with a symbolic key or victim from every AVL tree of height <= 3 (20 shapes) plus every removal from all 315 shapes of height 4 (thorough: all operations from height <= 4, 335 shapes), and every insert/remove pattern of length 5 (thorough 7) from the empty tree with symbolic keys; the solver partitions key space (all relative orders incl. duplicates). Full invariant oracle after every call.",
+   text="Every insert/remove/search with a symbolic key or victim from every AVL tree of height <= 3 (20 shapes) plus every removal from all 315 shapes of height 4 (thorough: all operations from height <= 4, 335 shapes), and every insert/remove pattern of length 5 (thorough 6) from the empty tree with symbolic keys; the solver partitions key space (all relative orders incl. duplicates). Full invariant oracle after every call.",
    note=E2NOTE + " Packed parent word configuration (A_SIZE_POINTER == 8)."),
 })
 CHECKS.update({
  "C02": dict(engine="llsym", cat="model_checking", design="4/C02",
    technique="symbolic execution of src/rbt.c IR (llsym + z3): inductive step from every valid red-black tree up to a node bound with symbolic keys/victims, plus bounded histories; A_ASSUME operands checked as assertions",
-   text="Every insert/remove/search with symbolic key or victim from every valid red-black tree with <= 8 nodes plus every removal from every valid tree with 9 or 10 nodes (thorough: all operations, <= 11 nodes) and every insert/remove pattern of length 5 (7) from the empty tree; full red-black + BST + parent-link + contents oracle after every call.",
+   text="Every insert/remove/search with symbolic key or victim from every valid red-black tree with <= 8 nodes plus every removal from every valid tree with 9 or 10 nodes (thorough: all operations, <= 11 nodes) and every insert/remove pattern of length 5 (6) from the empty tree; full red-black + BST + parent-link + contents oracle after every call.",
    note=E2NOTE + " Packed parent word configuration (bit 0 = colour)."),
  "C03": dict(engine="llsym", cat="model_checking", design="4/C03",
    technique="symbolic execution of the iterator functions and the header's foreach/fortear macros (instantiated in a wrapper TU) over every tree shape up to the bound; freed-node instrumentation for tear-down",
